@@ -1549,7 +1549,7 @@ mod builtins {
         value: Value,
         args: crate::value::Rest<ValueOrKwargs>,
     ) -> Result<Vec<Value>, Error> {
-        let mut rv = Vec::with_capacity(value.len().unwrap_or(0));
+        let mut rv = Vec::with_capacity(untrusted_size_hint(value.len().unwrap_or(0)));
 
         // attribute mapping
         let args = args.into_values();
